@@ -7,6 +7,7 @@ import (
 	"flag"
 	"fmt"
 	"io"
+	"io/fs"
 	"os"
 	"strings"
 	"syscall"
@@ -312,6 +313,21 @@ func (p *scriptProvider) GetRawQuote(rd [64]byte) ([]uint8, error) {
 	return p.bytes, p.err
 }
 
+// reusingProvider answers every request from one buffer which it overwrites in place.
+type reusingProvider struct {
+	buf  []byte
+	next []byte // what the next request produces
+}
+
+func (p *reusingProvider) IsSupported() error { return nil }
+func (p *reusingProvider) GetRawQuote(rd [64]byte) ([]uint8, error) {
+	if len(p.buf) != len(p.next) {
+		p.buf = make([]byte, len(p.next))
+	}
+	copy(p.buf, p.next)
+	return p.buf, nil
+}
+
 func c15Cells() []c15Cell {
 	results := []uintptr{0, 1, 7, 8, 9, 10, 0xdead}
 	statuses := []uint64{0, labi.GetQuoteInFlight, labi.GetQuoteError, labi.GetQuoteServiceUnavailable, 5, 1 << 63 >> 1}
@@ -415,7 +431,9 @@ func TestC15(t *testing.T) {
 		p := &scriptProvider{}
 		supported := rapid.Bool().Draw(t, "supported")
 		if !supported {
-			p.supported = errors.New("configfs not supported")
+			// "no support" is reported with whatever error the provider's probe ran into: its kind makes no difference
+			p.supported = rapid.SampledFrom([]error{errors.New("configfs not supported"), errors.New("configfs not supported"), os.ErrPermission, syscall.EACCES, syscall.EPERM, fmt.Errorf("probe: %w", os.ErrPermission),
+				&fs.PathError{Op: "stat", Path: "/sys/kernel/config/tsm/report", Err: syscall.EACCES}, os.ErrNotExist, &fs.PathError{Op: "stat", Path: "/sys/kernel/config/tsm/report", Err: syscall.ENOENT}, syscall.ENODEV, io.EOF, context.Canceled, os.ErrDeadlineExceeded}).Draw(t, "unsupportedError")
 		}
 		switch rapid.IntRange(0, 3).Draw(t, "bytes") {
 		case 1:
@@ -500,6 +518,58 @@ func TestC15(t *testing.T) {
 		gen.NonTrivial("provider", supported, len(p.bytes), p.err != nil)
 		gen.Class(fmt.Sprintf("provider:supported=%v,err=%v", supported, p.err != nil))
 		gen.Sample("provider", map[string]any{"supported": supported, "bytes": len(p.bytes), "err": p.err != nil})
+	})
+	// a provider that keeps ONE output buffer and overwrites it in place for every request (what a provider reading into
+	// a fixed buffer does): a history of GetRawQuote / GetQuote calls, each answered with another quote of the same
+	// length; every call returns the bytes / the parse of the quote the provider produced FOR THAT CALL
+	gen.Prop(t, "provider-reusing-its-buffer", gen.N(800, 60000), func(t *rapid.T) {
+		s := gen.NewStream(rapid.Uint64().Draw(t, "content"), "c15reuse")
+		p := &reusingProvider{}
+		var hist []string
+		for i, n := 0, rapid.IntRange(2, 6).Draw(t, "calls"); i < n; i++ {
+			q := gen.RandomRefQuote(s, 4, 50, 0)
+			if rapid.IntRange(0, 3).Draw(t, "sameAsBefore") == 0 && p.next != nil {
+				// the very same quote again
+			} else if rapid.IntRange(0, 3).Draw(t, "oneByteDiffers") == 0 && p.next != nil {
+				b := append([]byte{}, p.next...)
+				b[48+s.Intn(584)] ^= 1 << uint(s.Intn(8))
+				p.next = b
+			} else {
+				p.next = q.Encode()
+			}
+			want := append([]byte{}, p.next...)
+			var rd [64]byte
+			s.Fill(rd[:])
+			gen.Eval()
+			if rapid.Bool().Draw(t, "parsed") {
+				var gq any
+				v := gen.Call(func() error {
+					var err error
+					gq, err = client.GetQuote(p, rd)
+					return err
+				})
+				hist = append(hist, "GetQuote->"+v.Short())
+				wm, perr := abi.QuoteToProto(want)
+				if v.Panicked() || (perr == nil) != v.Accepted() || (perr == nil && !proto.Equal(wm.(*pb.QuoteV4), gq.(*pb.QuoteV4))) {
+					gen.Fail(t, gen.Violation{Key: "provider-getquote-differs:history", Oracle: "the parsed form equals parsing the raw form", Detail: fmt.Sprintf("history %v: call %d returned the parse of other bytes than the provider produced for it (parse err=%v, GetQuote=%v)", hist, i+1, perr, v), Replay: map[string]any{"kind": "provider-history"}})
+					return
+				}
+			} else {
+				var got []byte
+				v := gen.Call(func() error {
+					var err error
+					got, err = client.GetRawQuote(p, rd)
+					return err
+				})
+				hist = append(hist, "GetRawQuote->"+v.Short())
+				if !v.Accepted() || !bytes.Equal(got, want) {
+					gen.Fail(t, gen.Violation{Key: "provider-not-verbatim:history", Oracle: "a supported provider's bytes and error are returned verbatim", Detail: fmt.Sprintf("history %v: call %d: %v, bytes equal=%v", hist, i+1, v, bytes.Equal(got, want)), Replay: map[string]any{"kind": "provider-history"}})
+					return
+				}
+			}
+		}
+		gen.NonTrivial("reuse", fmt.Sprint(hist), p.buf[:8])
+		gen.Class("provider:history-on-a-reused-buffer")
 	})
 	// a value that is both a device and a quote provider: whichever route the client takes for it, GetRawQuote and
 	// GetQuote take the same one — the parsed form equals parsing the raw form
